@@ -272,6 +272,13 @@ FIXED = [
     "def u19(x: int) -> None:\n    while False:\n        c = 2\n    sink(c)\n",
     "def u20(x: int) -> None:\n    if True:\n        a = 1\n    sink(a)\n",
     "def u12(x: int) -> None:\n    a = 1\n    b = a\n    if cond():\n        b = True\n    c = b\n",
+    # a name that is also a module-level binding, read in the *entry* block before the function assigns it (it is a local: Python
+    # raises UnboundLocalError) -- added after the side observation of seeding agent C08 (round 3)
+    "def u21(x: int) -> None:\n    sink(g0)\n    g0 = 1\n",
+    "def u22(x: int) -> None:\n    a = g0\n    if cond():\n        g0 = 2\n    sink(a)\n",
+    "def u23(x: int) -> None:\n    sink(g0)\n    while cond():\n        g0 = 1\n        sink(g0)\n",
+    "def u24(x: int) -> None:\n    g0: int = g0\n    sink(g0)\n",
+    "def u25(x: int) -> None:\n    g0 = 1\n    sink(g0)\n    g0 = 2\n",
 ]
 
 
@@ -279,6 +286,10 @@ def gen_program(i, seed, depth):
     rng = random.Random(f"c08-{seed}-{i}")
     g = Gen(rng, rng.choice([["int"], ["int", "bool"], ["int", "bool"], ["int", "bool", "float", "tuple"]]))
     body = g.block(depth, False, 4)
+    # (own stream, so the bodies stay as they were) now and then the module-level name g0 is read in the entry block before anything else
+    pre = random.Random(f"c08pre-{seed}-{i}")
+    if pre.random() < 0.12:
+        body = [pre.choice(["    sink(g0)", "    a = g0", "    b = g0"])] + body
     return "\n".join([f"def p{i}(x: int) -> None:"] + body) + "\n"
 
 
